@@ -128,11 +128,8 @@ func (r *Run) CountN(name string, n int64) {
 
 // Distinct records a distinct non-trivial case key (hashed to keep it short).
 func (r *Run) Distinct(key string) {
-	if len(key) > 40 {
-		s := sha256.Sum256([]byte(key))
-		key = hex.EncodeToString(s[:10])
-	}
-	r.distinct[key] = struct{}{}
+	s := sha256.Sum256([]byte(key))
+	r.distinct[hex.EncodeToString(s[:6])] = struct{}{}
 }
 
 // Sample keeps one written-out case for the evidence file.
